@@ -7,16 +7,7 @@
 //     an EXACT prefix / suffix of the slice (they compare through String::starts_with/ends_with);
 //   * [char]::starts_with_str is LENIENT: it also returns true when the slice ends before the
 //     needle does (this is what made the unfixed parser index past the end, finding F5).
-#[verifier::external_type_specification]
-#[verifier::external_body]
-pub struct ExPrefixMatchDict(nar_dev_utils::PrefixMatchDict);
-#[verifier::external_type_specification]
-#[verifier::external_body]
-pub struct ExBiFixMatchDictPair(nar_dev_utils::BiFixMatchDictPair);
-#[verifier::external_type_specification]
-#[verifier::external_body]
-#[verifier::reject_recursive_types(T)]
-pub struct ExSuffixMatchDictPair<T>(nar_dev_utils::SuffixMatchDictPair<T>);
+// (the external type specifications of the three dictionary types live in common/lexformat.vspec)
 
 pub open spec fn is_prefix_of(p: Seq<char>, s: Seq<char>) -> bool {
     p.len() <= s.len() && s.subrange(0, p.len() as int) == p
